@@ -112,13 +112,16 @@ def run (fs : List Func) (gl : String → Int) (fuel : Nat) (is : List Instr) (s
 end
 
 /-- call function `name` with `args` (first parameter first); results in declaration order -/
-def callFn (fs : List Func) (gl : String → Int) (name : String) (args : List Int) : Option (List Int) :=
-  match step fs gl 400 (.call name) { locals := [], stack := args.reverse } with
-  | some (_, s) =>
-    match findFunc fs name with
-    | some fn => some (s.stack.take fn.results).reverse
-    | none => none
+def callFuel (fs : List Func) (gl : String → Int) (fuel : Nat) (name : String) (args : List Int) : Option (List Int) :=
+  match findFunc fs name with
   | none => none
+  | some fn =>
+    match step fs gl fuel (.call name) { locals := [], stack := args.reverse } with
+    | some (_, s) => some (s.stack.take fn.results).reverse
+    | none => none
+
+def callFn (fs : List Func) (gl : String → Int) (name : String) (args : List Int) : Option (List Int) :=
+  callFuel fs gl 400 name args
 
 /-- the module's globals as far as the helper functions read them, from the template parameters -/
 def glOf (c : WaVerif.C10.Config) (g : String) : Int :=
